@@ -71,6 +71,7 @@ def valid(line):
     """every object index refers to an object that exists at that point"""
     toks = line.split()
     n = int(toks[0]); i = 1
+    n0 = n
     try:
         while i < len(toks):
             t = toks[i]
@@ -88,6 +89,8 @@ def valid(line):
                 idx = []
                 if t == "A":
                     n += 1
+                if t == "X" and n > n0:
+                    n -= 1
                 i += 1
             if any(x < 0 or x >= n for x in idx):
                 return False
